@@ -127,6 +127,23 @@ add('C07',
     "sources are generated in the 3rd..3rd-last cell (supported away from "
     "the outermost cells).")
 
+add('C20',
+    "Hypothesis over time vectors x bands x signals x transforms x coarse "
+    "options x spectra (constructor path and setter sequences); oracles: "
+    "partition of the required frequencies, band restriction, pass-through, "
+    "checker-side cubic spline in log f, extrapolation facts, direct "
+    "empymod.model.tem on the filled spectrum with input-derived arguments",
+    "Exploration: every generated Fourier object is checked against facts "
+    "derived only from its inputs (never from the object): three disjoint "
+    "index sets, computed frequencies in band, exact pass-through, in-band "
+    "equality with an independently evaluated cubic spline, real part "
+    "constant and imaginary part shrinking monotonically below fmin, and "
+    "freq2time == the reference transform; a second sub-check reaches the "
+    "same settings through permuted setter sequences.",
+    "Trusted: empymod (check_time, tem) and scipy's "
+    "InterpolatedUnivariateSpline as reference implementations; standard "
+    "DLF only with a single time (2-D freq_required otherwise).")
+
 NOT_BUILT = "check not built yet (see DESIGN.md section 3 for the plan)"
 
 
